@@ -11,19 +11,23 @@
 //	        split/count: rlp.Split / rlp.CountValues; walk: descent with the
 //	        Stream primitives (Kind/List/ListEnd/Bytes) over a reader that
 //	        holds 16 more bytes than the declared limit; sdec.T: Stream.Decode
-//	        into type T on such a reader (both in "streams"); alloc: bytes allocated by all
+//	        into type T on such a reader (both in "streams"); ops: Kind() then
+//	        a seeded random sequence of Stream calls on such a reader; alloc: bytes allocated by all
 //	        DecodeBytes calls of the event.
 //	Encode: t, val (typed form of the Go value); ok, enc (rlp.EncodeToBytes);
 //	        back (DecodeBytes of enc into a fresh value of the type).
 package main
 
 import (
+	"encoding/json"
 	"flag"
 	"fmt"
 	"io"
 	"math/rand"
+	"os"
 	"path/filepath"
 	"reflect"
+	"syscall"
 
 	"com.tuntun.rangers/node/src/storage/rlp"
 	"verif/harness/internal/codecutil"
@@ -129,7 +133,22 @@ var streamModes = []struct{ name, typ string }{
 	{"walk", "iface"}, {"sdec.iface", "iface"}, {"sdec.S1", "S1"}, {"sdec.au2", "au2"}, {"sdec.Snest", "Snest"},
 }
 
+// current: the input being decoded is noted in a side file before the real
+// code runs, so that the orchestrator can name it when the process dies of a
+// fatal runtime error (out of memory cannot be recovered in-process).
+var current *os.File
+
+func noteCurrent(in []byte, src string) {
+	if current == nil {
+		return
+	}
+	b, _ := json.Marshal(map[string]interface{}{"event": "Decode", "src": src, "in": codecutil.Ints(in)})
+	current.Truncate(0)
+	current.WriteAt(b, 0)
+}
+
 func decodeEvent(in []byte, src string) map[string]interface{} {
+	noteCurrent(in, src)
 	type attempt struct {
 		ptr   reflect.Value
 		err   error
@@ -227,7 +246,68 @@ func decodeEvent(in []byte, src string) map[string]interface{} {
 		streams = append(streams, w)
 	}
 	ev["streams"] = streams
+	ev["ops"] = streamOps(in)
 	return ev
+}
+
+var opsRng *rand.Rand
+
+// streamOps: Kind() followed by a seeded random sequence of Stream API calls
+// (also ones that make no sense at that position) over a reader with slack.
+func streamOps(in []byte) map[string]interface{} {
+	cr := slackReader(in)
+	if len(in) == 0 {
+		cr.b = cr.b[:0]
+	}
+	out := map[string]interface{}{"panic": false, "read": 0, "calls": []string{},
+		"first": map[string]interface{}{"ok": false, "kind": "", "size": 0}}
+	calls := make([]string, 0, 12)
+	p, _ := codecutil.Try(func() {
+		s := rlp.NewStream(cr, uint64(len(in)))
+		k, size, err := s.Kind()
+		if err == nil {
+			if size > 2000000000 {
+				size = 2000000000
+			}
+			out["first"] = map[string]interface{}{"ok": true, "kind": kindName(k), "size": int(size)}
+		}
+		n := 1 + opsRng.Intn(12)
+		for i := 0; i < n; i++ {
+			var name string
+			var e error
+			switch opsRng.Intn(7) {
+			case 0:
+				name = "List"
+				_, e = s.List()
+			case 1:
+				name = "ListEnd"
+				e = s.ListEnd()
+			case 2:
+				name = "Bytes"
+				_, e = s.Bytes()
+			case 3:
+				name = "Uint"
+				_, e = s.Uint()
+			case 4:
+				name = "Raw"
+				_, e = s.Raw()
+			case 5:
+				name = "Bool"
+				_, e = s.Bool()
+			default:
+				name = "Kind"
+				_, _, e = s.Kind()
+			}
+			if e != nil {
+				name += ":err"
+			}
+			calls = append(calls, name)
+		}
+	})
+	out["panic"] = p
+	out["read"] = cr.pos
+	out["calls"] = calls
+	return out
 }
 
 func encodeEvent(name string, v reflect.Value, src string) map[string]interface{} {
@@ -331,10 +411,21 @@ func main() {
 	casesPath := flag.String("cases", "", "JSON file: list of TLC-generated cases")
 	nRandom := flag.Int("random", 0, "number of seeded random values (each also yields mutated encodings)")
 	salt := flag.Int64("salt", 0, "extra seed salt (shard number)")
+	curPath := flag.String("current", "", "side file naming the input being decoded")
 	flag.Parse()
+	// a decoder that trusts a declared size must not take the machine down with it
+	syscall.Setrlimit(syscall.RLIMIT_AS, &syscall.Rlimit{Cur: 8 << 30, Max: 8 << 30})
+	if *curPath != "" {
+		f, err := os.Create(*curPath)
+		if err != nil {
+			vutil.Fatalf("create %s: %v", *curPath, err)
+		}
+		current = f
+	}
 	outAbs, _ := filepath.Abs(*out)
 	var cases []tcase
 	codecutil.ReadCases(*casesPath, &cases)
+	opsRng = vutil.Rng(88 + 1000**salt)
 	tr := vutil.NewTrace(outAbs)
 	nDec, nEnc := 0, 0
 	for _, c := range cases {
@@ -368,6 +459,7 @@ func main() {
 		}
 	}
 	rng := vutil.Rng(8 + 1000**salt)
+	_ = rng
 	for i := 0; i < *nRandom; i++ {
 		name := typeNames[rng.Intn(len(typeNames))]
 		v := randValue(rng, catalogue[name], 0, "")
